@@ -314,7 +314,8 @@ def build_pay(M, tok, old, new, newc, rev_msg, dig_c, dig_m, d, c, o=None):
     ks = [d["kcid"], d["knn"], d["klock"], kcb, kmb]
     kc = [d["kcid"], d["kclose"], d["klock"], kcb, kmb]
     for (which, slot), val in o.items():
-        {"t": kt, "s": ks, "c": kc}[which][slot] = val
+        if which != "r":
+            {"t": kt, "s": ks, "c": kc}[which][slot] = val
     cpt = craft_cp(pk["g2"], pk["y2s"], old, d["bft"], d["kbft"], kt, c)
     tokp = dict(cpt, s1=tok[0] * d["rt"] % Q, s2=(tok[1] + tok[0] * d["bft"]) * d["rt"] % Q)
     return {"knonce": kt[1], "kclose": kc[1], "tok": tokp,
